@@ -3,7 +3,7 @@ from __future__ import annotations
 
 import ast
 
-from ..astutil import attr_path, call_name, walk, src
+from ..astutil import attr_path, call_name, walk, src, ancestors
 from ..bytelayout import Layouter, flatten, show
 from ..codecs import class_const, datatype_classes, effective, format_facts, write_layout, reads
 from ..consteval import UNKNOWN, ClassRef, FuncRef
@@ -374,6 +374,12 @@ def _structtag_facts(ctx, tag, e, d):
                     ok_slice = L is not None and L.terms == {atom_name(lo): 1, f"len({enc_name})": 1} and L.const == 0 and _bound_to_offsets(e, atom_name(lo))
             if isinstance(n, ast.AugAssign) and isinstance(n.op, ast.BitOr) and isinstance(n.target, ast.Subscript):
                 ok_bit_e = _one_shl(n.value) is not None and _bits_loop(n, atom_name(n.target.slice), _one_shl(n.value))
+            if isinstance(n, ast.Assign) and isinstance(n.targets[0], ast.Subscript) and not isinstance(n.targets[0].slice, ast.Slice) and isinstance(n.value, ast.BinOp) and isinstance(n.value.op, ast.BitOr):
+                # clear-then-or form: value[offset] = (value[offset] & ~(1 << bit)) | (b << bit)
+                inv = [_one_shl(x.operand) for x in walk(n.value) if isinstance(x, ast.UnaryOp) and isinstance(x.op, ast.Invert) and _one_shl(x.operand) is not None]
+                shl = [atom_name(x.right) for x in walk(n.value) if isinstance(x, ast.BinOp) and isinstance(x.op, ast.LShift) and _one_shl(x) is None]
+                if inv and shl and inv[0] == shl[0]:
+                    ok_bit_e = _bits_loop(n, atom_name(n.targets[0].slice), inv[0])
     if d is not None:
         node_d = d
         for n in walk(d):
@@ -384,9 +390,37 @@ def _structtag_facts(ctx, tag, e, d):
     out["image"] = (ok_img, "encoded image is a zeroed buffer of the template's structure size" if ok_img else "encoded image is not bytearray(cls.size)", node_e)
     out["member-offset"] = (ok_slice, "each member is written at value[offset : offset+len(encoded)] with offset = cls._offsets[member]" if ok_slice else "member bytes are not written at their template offset", node_e)
     out["bit-encode"] = (ok_bit_e, "BOOL member sets bit `bit` of host byte `offset`" if ok_bit_e else "BOOL members are not written as 1 << bit into value[offset] from cls.bits", node_e)
+    out["bit-clear"] = _bit_clear_fact(e) if e is not None else (False, "no _encode", None)
     out["bit-decode"] = (ok_bit_d, "BOOL member reads bit `bit` of host byte `offset`" if ok_bit_d else "BOOL members are not read as raw[offset] & (1 << bit) from cls.bits", node_d)
     out["decode-offset"] = (ok_off_d, "members are decoded at cls._offsets[member]" if ok_off_d else "decode does not position each member at cls._offsets[member]", node_d)
     return out
+
+
+def _bit_clear_fact(e):
+    """A BOOL member that is False leaves its host bit 0.  The image starts zeroed, but member bytes are written into it before
+    the bit loop and a template may host a BOOL in a visible member, so OR-ing the true bits is only enough when nothing was
+    written before; otherwise the false arm has to clear the bit (or the bit is assigned in clear-then-or form)."""
+    ors = [n for n in walk(e) if isinstance(n, ast.AugAssign) and isinstance(n.op, ast.BitOr) and isinstance(n.target, ast.Subscript) and _one_shl(n.value) is not None]
+    if not ors:
+        assigns = [n for n in walk(e) if isinstance(n, ast.Assign) and isinstance(n.targets[0], ast.Subscript) and not isinstance(n.targets[0].slice, ast.Slice)
+                   and any(isinstance(x, ast.UnaryOp) and isinstance(x.op, ast.Invert) and _one_shl(x.operand) is not None for x in walk(n.value))
+                   and any(isinstance(x, ast.BinOp) and isinstance(x.op, ast.BitOr) for x in walk(n.value))]
+        return (bool(assigns), "host bit assigned in clear-then-or form" if assigns else "no BOOL bit write found", assigns[0] if assigns else e)
+    o = ors[0]
+    loop = next((a for a in ancestors(o) if isinstance(a, ast.For)), None)
+    earlier_writes = [n for n in walk(e) if isinstance(n, ast.Assign) and isinstance(n.targets[0], ast.Subscript) and isinstance(n.targets[0].slice, ast.Slice)
+                      and atom_name(n.targets[0].value) == atom_name(o.target.value) and loop is not None and n.lineno < loop.lineno]
+    if not earlier_writes:
+        return (True, "no member bytes are written before the bit loop: the zeroed image already holds 0 for false BOOLs", o)
+    iff = next((a for a in ancestors(o) if isinstance(a, ast.If)), None)
+    clears = [n for n in walk(loop or e) if isinstance(n, ast.AugAssign) and isinstance(n.op, ast.BitAnd) and isinstance(n.target, ast.Subscript) and atom_name(n.target.slice) == atom_name(o.target.slice)
+              and isinstance(n.value, ast.UnaryOp) and isinstance(n.value.op, ast.Invert) and _one_shl(n.value.operand) == _one_shl(o.value)]
+    good = False
+    if iff is not None and clears:
+        in_body = lambda n, arm: any(n is x for s_ in arm for x in walk(s_))  # noqa: E731
+        good = any((in_body(o, iff.body) and in_body(c, iff.orelse)) or (in_body(o, iff.orelse) and in_body(c, iff.body)) for c in clears)
+    return (good, "a false BOOL member clears its host bit (members written before may share the host byte)" if good else
+            "a false BOOL member does not clear its host bit although member bytes are written into the image before the bit loop: a BOOL hosted in a visible member keeps the host's bit (BOOL member not in its host bit)", o)
 
 
 def _one_shl(e):
